@@ -127,6 +127,15 @@ func (c18) Gen(r *sim.Rand, c *sim.Case, tier string) {
 	if r.Chance(0.3) {
 		ops = append(ops, sim.Op{K: "para", S: []sim.Str{"{{#image pic}}"}})
 	}
+	loop := r.Chance(0.3)
+	if loop {
+		hdr := "Item"
+		if Wild {
+			hdr = "Item {{title}}" // (placeholders in the static rows of a loop table are not substituted: listed finding)
+		}
+		ops = append(ops, sim.Op{K: "t.new", I: []int{3, 3, 6000, 0, 1}, S: []sim.Str{sim.Str(hdr), "Qty", "Note", "{{#each items}}{{f1}}", "{{qty}} pcs", "{{f2}}{{/each}}", "Total", "", "end"}})
+		c.Cfg["loop"] = 1
+	}
 	// data
 	d := &world.TData{Vars: map[string]any{}, Images: map[string][]int{"pic": {r.Intn(3), 6, 5, 424242}}}
 	vals := []any{"plain", "Ünï 中文", "a<b>&\"c'", "  spaced  ", "", float64(r.Range(-5, 900)), 12.5, true, "tab\there", "ctl\x01char"}
@@ -136,6 +145,12 @@ func (c18) Gen(r *sim.Rand, c *sim.Case, tier string) {
 	for _, n := range c18names {
 		if r.Chance(0.7) {
 			d.Vars[n] = vals[r.Intn(len(vals))]
+		}
+	}
+	if loop && r.Chance(0.85) {
+		d.Lists = map[string][]any{"items": {}}
+		for i := r.Intn(4); i > 0; i-- {
+			d.Lists["items"] = append(d.Lists["items"], map[string]any{"f1": fmt.Sprintf("thing%d", i), "qty": float64(r.Range(1, 99)), "f2": vals[r.Intn(5)]})
 		}
 	}
 	ops = append(ops, sim.Op{K: "c18.render", S: []sim.Str{sim.Str(d.JSON())}})
@@ -195,9 +210,30 @@ type c18para struct {
 	node    *inspect.Node
 }
 
-func c18paras(root *inspect.Node) []c18para {
+// findSkipping returns the descendant elements {space}local outside the skipped subtrees.
+func findSkipping(n *inspect.Node, space, local string, skip map[*inspect.Node]bool) []*inspect.Node {
+	var out []*inspect.Node
+	var rec func(x *inspect.Node)
+	rec = func(x *inspect.Node) {
+		if skip[x] {
+			return
+		}
+		if x.Is(space, local) {
+			out = append(out, x)
+		}
+		for _, k := range x.Kids {
+			if k.Local != "" {
+				rec(k)
+			}
+		}
+	}
+	rec(n)
+	return out
+}
+
+func c18paras(root *inspect.Node, skip map[*inspect.Node]bool) []c18para {
 	var out []c18para
-	for _, p := range root.Find(inspect.NsW, "p") {
+	for _, p := range findSkipping(root, inspect.NsW, "p", skip) {
 		var cp c18para
 		cp.node = p
 		for _, r := range p.Children(inspect.NsW, "r") {
@@ -340,7 +376,21 @@ func (c18) Exec(c *sim.Case, env *Env) []sim.Violation {
 	}
 	hasImagePH := strings.Contains(string(pb.Parts["word/document.xml"]), "{{#image")
 	// ---- paragraphs: text, non-text runs, character formatting
-	bp, rp := c18paras(rb), c18paras(rr)
+	// tables that contain a row loop are compared by their own oracle (below) and left out of the generic comparison
+	skip := map[*inspect.Node]bool{}
+	tb, tr := rb.Child(inspect.NsW, "body").Children(inspect.NsW, "tbl"), rr.Child(inspect.NsW, "body").Children(inspect.NsW, "tbl")
+	var loopTables [][2]*inspect.Node
+	if len(tb) == len(tr) {
+		for i := range tb {
+			if strings.Contains(tb[i].InnerText(), "{{#each") {
+				skip[tb[i]], skip[tr[i]] = true, true
+				loopTables = append(loopTables, [2]*inspect.Node{tb[i], tr[i]})
+			}
+		}
+	} else {
+		add("structure", "table-count", fmt.Sprintf("the base has %d top-level tables, the result %d", len(tb), len(tr)))
+	}
+	bp, rp := c18paras(rb, skip), c18paras(rr, skip)
 	if len(bp) != len(rp) {
 		add("structure", "paragraph-count", fmt.Sprintf("the base has %d paragraphs, the result %d", len(bp), len(rp)))
 	} else {
@@ -389,7 +439,6 @@ func (c18) Exec(c *sim.Case, env *Env) []sim.Violation {
 	}
 	// ---- structure and properties by element path
 	// a paragraph that held an image placeholder becomes a picture paragraph (C10's oracle): it is left out on both sides
-	skip := map[*inspect.Node]bool{}
 	if len(bp) == len(rp) {
 		for i := range bp {
 			if strings.Contains(bp[i].text, "{{#image") {
@@ -402,6 +451,10 @@ func (c18) Exec(c *sim.Case, env *Env) []sim.Violation {
 			continue
 		}
 		add("lost-on-render", "word/document.xml:"+d[0], d[1])
+	}
+	// ---- row loops: one row per item, fields substituted, the other rows substituted like any paragraph
+	for _, lt := range loopTables {
+		c18loopTable(lt[0], lt[1], data, add, env.Stats)
 	}
 	// ---- other parts
 	for _, n := range pb.SortedNames() {
@@ -553,4 +606,71 @@ func lostKinds(a, b []string) string {
 	}
 	sortStrings(out)
 	return strings.Join(out, "+")
+}
+
+var eachOpenRe = regexp.MustCompile(`\{\{#each\s+(\w+)\}\}`)
+
+func rowTexts(tr *inspect.Node) []string {
+	var out []string
+	for _, tc := range tr.Children(inspect.NsW, "tc") {
+		t := ""
+		for _, x := range tc.Find(inspect.NsW, "t") {
+			t += x.InnerText()
+		}
+		out = append(out, t)
+	}
+	return out
+}
+
+// c18loopTable: the reference expansion of a table whose one row holds {{#each list}} … {{/each}}.
+func c18loopTable(base, res *inspect.Node, data *world.TData, add func(clause, sig, detail string), st *sim.Stats) {
+	var want [][]string
+	var kind []string // per expected row: "static" | "static-with-supplied-placeholder" | "item"
+	for _, tr := range base.Children(inspect.NsW, "tr") {
+		cells := rowTexts(tr)
+		joined := strings.Join(cells, "\x00")
+		m := eachOpenRe.FindStringSubmatch(joined)
+		if m == nil {
+			var row []string
+			k := "static"
+			for _, c := range cells {
+				t, _ := refSubst(c, data.Vars)
+				if t != c {
+					k = "static-with-supplied-placeholder"
+				}
+				row = append(row, t)
+			}
+			want = append(want, row)
+			kind = append(kind, k)
+			continue
+		}
+		for _, it := range data.Lists[m[1]] {
+			im, _ := it.(map[string]any)
+			var row []string
+			for _, c := range cells {
+				c = eachOpenRe.ReplaceAllString(c, "")
+				c = strings.ReplaceAll(c, "{{/each}}", "")
+				t, _ := refSubst(c, im)
+				row = append(row, t)
+			}
+			want = append(want, row)
+			kind = append(kind, "item")
+		}
+		st.Probe("row_loops")
+	}
+	var got [][]string
+	for _, tr := range res.Children(inspect.NsW, "tr") {
+		got = append(got, rowTexts(tr))
+	}
+	if len(got) != len(want) {
+		add("row-loop", "row-count", fmt.Sprintf("the expanded table has %d rows, the reference expansion %d", len(got), len(want)))
+		return
+	}
+	for i := range want {
+		if strings.Join(got[i], "\x00") != strings.Join(want[i], "\x00") {
+			cls := kind[i] + "-row"
+			add("row-loop", cls, fmt.Sprintf("row %d of the expanded table reads %q, the reference expansion %q", i, got[i], want[i]))
+			return
+		}
+	}
 }
